@@ -3,7 +3,113 @@
 pub mod num;
 pub mod linalg;
 pub mod gs;
+pub mod link;
+pub mod chain;
+pub mod kh;
 
+use std::collections::BTreeMap;
+
+use num_bigint::BigInt;
+use num_traits::One;
+
+use linalg::OMat;
+use link::PD;
+use num::*;
+
+fn euler_of_cube(c: &kh::Cube) -> link::Laurent {
+    // graded Euler characteristic of the chain groups (equals that of homology)
+    let mut e = link::Laurent::new();
+    for (i, qs) in c.qdeg.iter().enumerate() {
+        let sign = if (i as i64 + c.h_shift).rem_euclid(2) == 0 { BigInt::one() } else { -BigInt::one() };
+        for q in qs { link::laurent_add(&mut e, *q, sign.clone()) }
+    }
+    e
+}
+
+/// Oracle vs oracle and oracle vs published data. A failure here is a harness error, never a verdict.
 pub fn selftest() -> bool {
-    true
+    let mut ok = true;
+    let mut check = |name: &str, cond: bool| { if !cond { eprintln!("SELFTEST FAILED: {name}"); ok = false } };
+
+    // --- published Khovanov homology of the left-handed trefoil 3_1 (Knot Atlas PD code)
+    let trefoil = PD::new(vec![[1, 4, 2, 5], [3, 6, 4, 1], [5, 2, 6, 3]]);
+    check("trefoil valid", trefoil.validate().is_ok());
+    check("trefoil writhe", trefoil.writhe() == -3);
+    match kh::build_cube(&trefoil, 0, 0, false, None).and_then(|c| { c.complex.check_dd()?; Ok((c.bigraded()?, euler_of_cube(&c))) }) {
+        Ok((t, chi)) => {
+            let mut exp: BTreeMap<(i64, i64), (usize, Vec<Z>)> = BTreeMap::new();
+            exp.insert((0, -1), (1, vec![]));
+            exp.insert((0, -3), (1, vec![]));
+            exp.insert((-2, -5), (1, vec![]));
+            exp.insert((-3, -9), (1, vec![]));
+            exp.insert((-2, -7), (0, vec![z(2)]));
+            check("trefoil Kh table", t == exp);
+            check("trefoil chi = Jones", trefoil.jones().map(|j| j == chi).unwrap_or(false));
+            let mut j = link::Laurent::new();
+            for (e, c) in [(-1, 1), (-3, 1), (-5, 1), (-9, -1)] { j.insert(e, BigInt::from(c)); }
+            check("trefoil Jones published", trefoil.jones().map(|x| x == j).unwrap_or(false));
+        }
+        Err(e) => check(&format!("trefoil cube: {e}"), false),
+    }
+    // reduced trefoil: Z at (0,-2), (-2,-6), (-3,-8)
+    match kh::build_cube(&trefoil, 0, 0, true, Some(1)).and_then(|c| c.bigraded()) {
+        Ok(t) => {
+            let mut exp: BTreeMap<(i64, i64), (usize, Vec<Z>)> = BTreeMap::new();
+            for k in [(0, -2), (-2, -6), (-3, -8)] { exp.insert(k, (1, vec![])); }
+            check("reduced trefoil", t == exp);
+        }
+        Err(e) => check(&format!("reduced trefoil cube: {e}"), false),
+    }
+    // Lee / Bar-Natan deformations of the trefoil: total rank 2
+    for (h, t) in [(1i64, 0i64), (0, 1), (2, 3)] {
+        match kh::build_cube(&trefoil, h, t, false, None).and_then(|c| { c.complex.check_dd()?; c.homology() }) {
+            Ok(hm) => check(&format!("trefoil deformation ({h},{t}) rank 2"), hm.iter().map(|x| x.1).sum::<usize>() == 2),
+            Err(e) => check(&format!("deformed cube: {e}"), false),
+        }
+    }
+    // Hopf link, figure eight, a kinked unknot: d^2 = 0, chi = Jones, universal coefficients over F2
+    for (name, pd) in [
+        ("hopf", PD::new(vec![[4, 1, 3, 2], [2, 3, 1, 4]])),
+        ("figure8", PD::new(vec![[4, 2, 5, 1], [8, 6, 1, 5], [6, 3, 7, 4], [2, 7, 3, 8]])),
+        ("kink", PD::new(vec![[1, 2, 2, 1]])),
+    ] {
+        check(&format!("{name} valid"), pd.validate().is_ok());
+        match kh::build_cube(&pd, 0, 0, false, None) {
+            Ok(c) => {
+                check(&format!("{name} d^2"), c.complex.check_dd().is_ok());
+                check(&format!("{name} chi = Jones"), pd.jones().map(|j| j == euler_of_cube(&c)).unwrap_or(false));
+                if let (Ok(zt), Ok(f2)) = (c.bigraded(), c.bigraded_fp(2)) {
+                    let mut exp: BTreeMap<(i64, i64), usize> = BTreeMap::new();
+                    for (&(i, j), (r, t)) in &zt {
+                        let ev = t.iter().filter(|x| (*x % z(2)) == z(0)).count();
+                        if r + ev > 0 { *exp.entry((i, j)).or_insert(0) += r + ev }
+                        if ev > 0 { *exp.entry((i - 1, j)).or_insert(0) += ev }
+                    }
+                    check(&format!("{name} universal coefficients F2"), exp == f2);
+                } else { check(&format!("{name} homology"), false) }
+            }
+            Err(e) => check(&format!("{name} cube: {e}"), false),
+        }
+    }
+    check("kinked unknot Jones", PD::new(vec![[1, 2, 2, 1]]).jones().map(|j| j.len() == 2 && j.get(&1) == Some(&BigInt::one()) && j.get(&-1) == Some(&BigInt::one())).unwrap_or(false));
+    // braid closure: sigma_1^3 on two strands is a trefoil with writhe 3, one component
+    match link::braid_closure(2, &[1, 1, 1]) {
+        Ok(b) => { check("braid trefoil valid", b.validate().is_ok()); check("braid trefoil writhe", b.writhe() == 3); check("braid trefoil comps", b.components().len() == 1) }
+        Err(e) => check(&format!("braid closure: {e}"), false),
+    }
+    // --- SNF oracle against gcds of minors
+    let m = OMat::<Z> { m: 3, n: 3, d: [2, 4, 4, -6, 6, 12, 10, -4, -16].iter().map(|&x| z(x)).collect() };
+    let f = m.snf_diag();
+    let g = m.minor_gcds();
+    let mut prod = z(1);
+    let mut good = f.len() == 3;
+    for i in 0..f.len().min(3) { prod = prod * &f[i]; good &= prod.associate(&g[i]); if i + 1 < f.len() { good &= f[i].divides(&f[i + 1]) } }
+    check("snf vs minors", good);
+    // Gaussian integers: divrem decreases the norm; gcd(2, 1+i) ~ 1+i
+    let (a, b) = (QI::<-1>(z(2), z(0)), QI::<-1>(z(1), z(1)));
+    check("gauss gcd", QI::<-1>::gcd(&a, &b).associate(&b));
+    let (q, r) = QI::<-3>(z(7), z(5)).divrem(&QI::<-3>(z(2), z(-3)));
+    check("eisenstein divrem", QI::<-3>(z(2), z(-3)).mul(&q).add(&r) == QI::<-3>(z(7), z(5)) && r.size() < QI::<-3>(z(2), z(-3)).size());
+    if ok { eprintln!("selftest ok") }
+    ok
 }
